@@ -49,6 +49,7 @@ const (
 	PDefenders
 	PLLJunk
 	PClaimers
+	PReqPairPlaced
 )
 
 var ProbeNames = map[int]string{
@@ -83,6 +84,7 @@ var ProbeNames = map[int]string{
 	PDefenders:             "defend_name_callers_next_to_the_servers",
 	PLLJunk:                "ill_formed_or_response_datagrams_sent_to_the_llmnr_server",
 	PClaimers:              "several_nodes_claim_one_unique_name_at_the_same_moment",
+	PReqPairPlaced:         "request_suspended_at_an_exact_statement_while_another_runs_to_completion",
 }
 
 var scenarioNames = [...]string{"nbns-server", "nbns-udp+tcp", "llmnr-server", "llmnr-client", "llmnr-client+server", "nbns-challenger", "nbns-lifecycle"}
@@ -93,7 +95,7 @@ func Run(seed uint64, index int64, o hx.Opts) *hx.Result {
 	en := hx.AllKinds()
 	cfg := rt.Config{Seed: seed, Replay: o.Replay, Verbose: o.Verbose, NPoints: o.NPoints, Bias: hx.Swarm(seed, en), MaxSteps: 20_000_000}
 	cfg.PCT = hx.SwarmPCT(seed)
-	if o.Scenario == "openum" || o.Scenario == "stopenum" || o.Scenario == "stopenum2" {
+	if o.Scenario == "openum" || o.Scenario == "stopenum" || o.Scenario == "stopenum2" || o.Scenario == "reqpair" {
 		cfg.PCT = false
 		for k := range cfg.Bias {
 			cfg.Bias[k] = 0
@@ -114,6 +116,11 @@ func Run(seed uint64, index int64, o hx.Opts) *hx.Result {
 		if o.Scenario == "stopenum" {
 			res.Scenario = "stopenum"
 			bad = runStopEnum(w, res, index)
+			return
+		}
+		if o.Scenario == "reqpair" {
+			res.Scenario = "reqpair"
+			bad = runReqPair(w, res, index)
 			return
 		}
 		if o.Scenario == "stopenum2" {
